@@ -375,11 +375,7 @@ def _bind_call(callee: FuncInfo, call: ast.Call) -> dict[str, ast.expr] | None:
 def productions(view: FuncInfo, e: ast.expr, depth: int = 0, seen: frozenset = frozenset(), follow=None) -> list[Production]:
     """`follow(view, call)` may return the view of the helper a call invokes: the elements the helper returns / yields are
     then followed into it (the productions carry `view`, `binding` and `caller`)."""
-    if follow is not None:
-        got = _productions(view, e, depth, seen, follow)
-    else:
-        got = _productions(view, e, depth, seen, None)
-    return got
+    return _productions(view, e, depth, seen, follow)
 
 
 def _into_helper(view: FuncInfo, call: ast.Call, follow, depth: int) -> list[Production] | None:
